@@ -201,6 +201,13 @@ def _run(prop_id, args, seed, tmp, t0):
     if cur is None or size < cur[0]:
       new[key] = (size, v)
 
+  if os.environ.get("VERIF_DEBUG"):
+    tot = {}
+    for r in shard_res + [replay_res]:
+      for k, n in r.get("violation_counts", {}).items():
+        tot[k] = tot.get(k, 0) + n
+    for k, n in sorted(tot.items()):
+      print("debug: %6d x %s" % (n, k))
   for f in open_findings:
     print("KNOWN-FINDING: %s [%s; reproduced by %d case(s) in this run]" % (
         f["record"].split("KNOWN-FINDING:")[-1].strip(), f["id"],
